@@ -68,6 +68,12 @@ FIRE: List[Tuple[str, str, str, List[Tuple[str, str, str]]]] = [
     ("varint-eof-unchecked", "C16", "N3", [(I, "        if not b:\n            raise EOFError(\"Stream ended unexpectedly while attempting to load varint.\")\n", "")]),
     ("payload-read-unchecked", "C17", "M3", [(I, "            decoded = _read_exact(stream, 8)", "            decoded = stream.read(8)")]),
     ("invalid-wire-type-accepted", "C17", "M1", [(I, "            decoded = _read_exact(stream, 4)\n            raw += decoded\n        else:\n            raise ValueError(f\"Unsupported wire type {wire_type} in field {number}.\")", "            decoded = _read_exact(stream, 4)\n            raw += decoded")]),
+    ("map-value-json-untransformed", "C04", "J", [(I, "                        output_map[k] = _scalar_to_json(value_type, v)", "                        output_map[k] = v")]),
+    ("map-value-json-untransformed-c05", "C05", "J1", [(I, "                        output_map[k] = _scalar_to_json(value_type, v)", "                        output_map[k] = v")]),
+    ("map-key-not-decoded", "C04", "J6", [(I, "                value = {_map_key_from_json(key_type, k): v for k, v in value.items()}\n", "")]),
+    ("map-key-bool-as-int", "C05", "J6", [(I, "        return key == \"true\" if isinstance(key, str) else key\n", "        return bool(key)\n")]),
+    ("wrapper-json-not-decoded", "C04", "J2", [(I, "                        else _scalar_from_json(meta.wraps, value)", "                        else value")]),
+    ("scalar-to-json-int64-number", "C05", "J1", [(I, "    if proto_type in INT_64_TYPES:\n        return str(value)\n", "")]),
     ("mismatch-check-dropped", "C17", "M4", [(I, "            if not _wire_type_matches(parsed.wire_type, meta.proto_type, repeated):", "            if False:")]),
     ("packed-into-singular", "C17", "M4", [(I, "            repeated = proto_meta.default_gen[field_name] is list\n", "            repeated = True\n")]),
     ("empty-map-entry-dropped", "C01", "T4", [(I, "                            sk + sv,\n                            # An entry with default key and value is still an entry.\n                            serialize_empty=True,", "                            sk + sv,")]),
@@ -127,6 +133,7 @@ CODEC = ["C01", "C02", "C06", "C08", "C09", "C10", "C16", "C17", "C20"]
 
 # (id, properties that must stay at exit 0, edits)  -- behaviour-preserving refactors
 SILENT: List[Tuple[str, List[str], List[Any]]] = [
+    ("map-key-true-membership", ["C04", "C05"], [(I, "        return key == \"true\" if isinstance(key, str) else key\n", "        return key in (\"true\",) if isinstance(key, str) else key\n")]),
     ("len-map-entry-without-serialising", CODEC, [(I, '                    sk = _serialize_single(1, meta.map_types[0], k)\n                    sv = _serialize_single(2, meta.map_types[1], v)\n                    size += _len_single(\n                        meta.number, meta.proto_type, sk + sv, serialize_empty=True\n                    )\n', '                    entry_size = _len_single(1, meta.map_types[0], k)\n                    entry_size += _len_single(2, meta.map_types[1], v)\n                    size += (\n                        size_varint((meta.number << 3) | 2)\n                        + size_varint(entry_size)\n                        + entry_size\n                    )\n')]),
     ("constants-as-tuples", CODEC + ["C04", "C05"], [(I, "FIXED_TYPES = [\n    TYPE_FLOAT,\n    TYPE_DOUBLE,\n    TYPE_FIXED32,\n    TYPE_SFIXED32,\n    TYPE_FIXED64,\n    TYPE_SFIXED64,\n]", "FIXED_TYPES = (\n    TYPE_FLOAT,\n    TYPE_DOUBLE,\n    TYPE_FIXED32,\n    TYPE_SFIXED32,\n    TYPE_FIXED64,\n    TYPE_SFIXED64,\n)"),
                                                      (I, "WIRE_FIXED_32_TYPES = [TYPE_FLOAT, TYPE_FIXED32, TYPE_SFIXED32]", "WIRE_FIXED_32_TYPES = frozenset({TYPE_FLOAT, TYPE_FIXED32, TYPE_SFIXED32})"),
